@@ -18,6 +18,7 @@ import sys
 import json
 import time
 import hashlib
+import signal
 import subprocess
 
 from . import env, forkpool, findings
@@ -104,9 +105,18 @@ def _fresh_interpreter(args, hashseed, jobs=None, timeout=600):
     if jobs:
         e['VERIF_JOBS'] = str(jobs)
     e['VERIF_INNER'] = '1'
-    p = subprocess.run([sys.executable, '-S', '-B', os.path.join(env.VERIF_DIR, 'dst', 'cli.py')] + args,
-                       env=e, stdout=subprocess.PIPE, stderr=subprocess.PIPE, timeout=timeout)
-    return p.returncode, p.stdout.decode(errors='replace'), p.stderr.decode(errors='replace')
+    p = subprocess.Popen([sys.executable, '-S', '-B', os.path.join(env.VERIF_DIR, 'dst', 'cli.py')] + args,
+                         env=e, stdout=subprocess.PIPE, stderr=subprocess.PIPE, start_new_session=True)
+    try:
+        so, se = p.communicate(timeout=timeout)
+    except subprocess.TimeoutExpired:
+        try:
+            os.killpg(p.pid, signal.SIGKILL)      # the interpreter and every worker it forked
+        except OSError:
+            pass
+        so, se = p.communicate()
+        return -9, so.decode(errors='replace'), 'fresh interpreter killed after %ss' % timeout
+    return p.returncode, so.decode(errors='replace'), se.decode(errors='replace')
 
 
 HANG_KEY = 'hang|wall-watchdog'
@@ -118,8 +128,11 @@ def _hang_violation(spec, seconds):
                 expected='terminates', observed='killed after %ss' % seconds, spec=spec)
 
 
-def _exec_spec_isolated(spec):
-    st, res = forkpool.isolated(_ENGINE.execute_spec, spec, timeout=SPEC_TIMEOUT)
+def _exec_spec_isolated(spec, timeout=None):
+    st, res = forkpool.isolated(_ENGINE.execute_spec, spec, timeout=timeout or SPEC_TIMEOUT)
+    if st == 'timeout' and timeout:
+        # a shortened limit (candidates of the minimiser): "did not finish in time" is no verdict at all
+        return dict(violations=[], digest='CUT-SHORT')
     if st == 'timeout':
         # a run the watchdog had to kill is a reportable outcome, replayable like any other
         return dict(spec=spec, violations=[_hang_violation(spec, SPEC_TIMEOUT)], digest='TIMEOUT')
@@ -145,6 +158,11 @@ def explore(engine, prop, tier, seed, batch=BATCH_DEFAULT, isolate=None, budget_
     tasks = [Batch(engine.ENGINE, prop, tier, seed, indices[i:i + batch], isolate)
              for i in range(0, n, batch)]
     deadline = None if budget_s is None else time.monotonic() + budget_s      # the budget is for exploration, after preparation
+    hang_in_prepare = bool(getattr(engine, 'hang_seen', lambda: False)())
+    if hang_in_prepare and deadline is not None:
+        # preparation already pinned down executions that do not terminate: the tree hangs systematically, every further
+        # hanging run costs a watchdog period and adds nothing; a short exploration for other signatures is enough
+        deadline = min(deadline, time.monotonic() + 60)
     agg = dict(evaluations=0, digests={}, nontrivial=set(), sim_time=0, faults={}, probes={},
                samples=[], violations=[], harness=[], skipped=0)
     per_task_timeout = task_timeout or max(300, (isolate or 0) * 4)
@@ -169,7 +187,14 @@ def explore(engine, prop, tier, seed, batch=BATCH_DEFAULT, isolate=None, budget_
     t_explore = time.monotonic() - t0
 
     exit_code = 0
-    lines = []
+
+    class _Lines(list):
+        # every report line is printed the moment it is known (a later stage that dies cannot swallow it)
+        def append(self, l):
+            list.append(self, l)
+            print(l)
+            sys.stdout.flush()
+    lines = _Lines()
 
     # -- a task that died or timed out: re-run its runs one by one to pin the culprit -----------
     if agg['harness']:
@@ -182,8 +207,9 @@ def explore(engine, prop, tier, seed, batch=BATCH_DEFAULT, isolate=None, budget_
         spec_for = getattr(engine, 'spec_for', None)
         still = []
         hangs = 0
+        hang_limit = 1 if (hang_in_prepare or any(v['key'] == HANG_KEY for v in agg['violations'])) else 2
         for idx in redo[:200]:
-            if hangs >= 3:
+            if hangs >= hang_limit:
                 break       # enough instances of a hang; each costs a full watchdog period
             st, res = forkpool.isolated(_one, (prop, tier, seed, idx), timeout=SPEC_TIMEOUT)
             if st == 'ok':
@@ -211,12 +237,16 @@ def explore(engine, prop, tier, seed, batch=BATCH_DEFAULT, isolate=None, budget_
     known_seen = []
     new_reported = 0
     confirmed_new = []
-    for key in sorted(by_key):
+    hang_confirmed = False
+    for key in sorted(by_key, key=lambda k: (k != HANG_KEY, k)):
         inst = by_key[key][0]
         if key in known:
             known_seen.append(key)
             lines.append('KNOWN-FINDING: property=%s %s [key=%s, %d instance(s)]' % (
                 prop, known[key]['what'], key, len(by_key[key])))
+            continue
+        if hang_confirmed and new_reported >= 3:
+            lines.append('NOTE property=%s further violation key not minimised (the tree hangs; every execution may cost a watchdog period): %s' % (prop, key))
             continue
         if new_reported >= max_keys:
             lines.append('NOTE property=%s further violation key not minimised: %s' % (prop, key))
@@ -225,9 +255,13 @@ def explore(engine, prop, tier, seed, batch=BATCH_DEFAULT, isolate=None, budget_
         new_reported += 1
         spec = inst['spec']
 
-        def still_fails(cand, _key=key):
-            return _key in _keys(_exec_spec_isolated(cand))
+        tb = time.monotonic()
         base = _exec_spec_isolated(spec)
+        # candidates of the minimiser get a wall limit derived from the original (a candidate that hangs is simply not taken)
+        cand_limit = None if key == HANG_KEY else int(min(SPEC_TIMEOUT, max(20, 15 * (time.monotonic() - tb))))
+
+        def still_fails(cand, _key=key, _lim=cand_limit):
+            return _key in _keys(_exec_spec_isolated(cand, _lim))
         if key not in _keys(base):
             lines.append('HARNESS-NONDETERMINISM property=%s key=%s run_index=%d (explicit spec did not reproduce in a fresh fork)' % (prop, key, inst['index']))
             exit_code = 2
@@ -238,7 +272,7 @@ def explore(engine, prop, tier, seed, batch=BATCH_DEFAULT, isolate=None, budget_
         except Exception as e:   # minimiser trouble must not hide the violation
             small = spec
             lines.append('NOTE minimiser failed: %r' % (e,))
-        final = _exec_spec_isolated(small)
+        final = base if small is spec else _exec_spec_isolated(small)
         if key not in _keys(final):
             small, final = spec, base
         viol = [v for v in final['violations'] if v['key'] == key][0]
@@ -257,6 +291,7 @@ def explore(engine, prop, tier, seed, batch=BATCH_DEFAULT, isolate=None, budget_
             exit_code = 2
             continue
         confirmed_new.append(key)
+        hang_confirmed = hang_confirmed or key == HANG_KEY
         lines.append('VIOLATION property=%s replay=%s' % (prop, path))
         lines.append('  key=%s check=%s instances=%d' % (key, viol.get('check'), len(by_key[key])))
         lines.append('  expected=%s' % (json.dumps(viol.get('expected'), default=str)[:600],))
@@ -265,7 +300,10 @@ def explore(engine, prop, tier, seed, batch=BATCH_DEFAULT, isolate=None, budget_
 
     # -- determinism self-test: same indices in a fresh interpreter, other hash seed, other jobs ---
     st_info = dict(checked=0, mismatches=0)
-    if selftest and agg['digests'] and not os.environ.get('VERIF_INNER'):
+    if hang_confirmed:
+        lines.append('NOTE property=%s determinism self-test skipped: executions on this tree do not terminate (each violation above was '
+                     'reproduced from its replay file in a fresh interpreter)' % prop)
+    elif selftest and agg['digests'] and not os.environ.get('VERIF_INNER'):
         have = sorted(agg['digests'])
         step = max(1, len(have) // selftest)
         pick = have[::step][:selftest]
@@ -280,12 +318,16 @@ def explore(engine, prop, tier, seed, batch=BATCH_DEFAULT, isolate=None, budget_
                 json.dump(ctxf(), f)
             extra = ['--context', cpath]
         rc, so, se = _fresh_interpreter([prop, '--tier', tier, '--seed', str(seed), '--digest-runs',
-                                         ','.join(map(str, pick))] + extra, hashseed=977, jobs=3)
+                                         ','.join(map(str, pick))] + extra, hashseed=977, jobs=3,
+                                        timeout=240 if confirmed_new else 900)
         try:
             other = json.loads(so.strip().splitlines()[-1])
         except Exception:
             other = None
-        if rc != 0 or other is None:
+        if (rc != 0 or other is None) and confirmed_new:
+            lines.append('NOTE property=%s determinism self-test did not complete on this tree (rc=%d); the violations above were each '
+                         'reproduced from their replay file in a fresh interpreter' % (prop, rc))
+        elif rc != 0 or other is None:
             lines.append('HARNESS-ERROR property=%s determinism self-test did not run: rc=%d %s' % (prop, rc, se.strip()[-500:].replace('\n', ' | ')))
             exit_code = max(exit_code, 2)
         else:
@@ -337,8 +379,6 @@ def explore(engine, prop, tier, seed, batch=BATCH_DEFAULT, isolate=None, budget_
     os.makedirs(evdir, exist_ok=True)
     with open(os.path.join(evdir, '%s.json' % prop), 'w') as f:
         json.dump(ev, f, indent=1, default=str)
-    for l in lines:
-        print(l)
     print('SUMMARY property=%s tier=%s seed=%d runs=%d distinct_nontrivial=%d violations_new=%d known=%d wall=%.1fs exit=%d' % (
         prop, tier, seed, agg['evaluations'], nt, len(confirmed_new), len(known_seen), wall, exit_code))
     return exit_code
